@@ -42,7 +42,7 @@ func runC16(r *Run) {
 		upd := callsMatching(h, false, nameHasSuffix("csrf.updateCSRFCookie"))
 		r.need(len(upd) == 1, "handler calls updateCSRFCookie once")
 		for _, in := range instrsWhere(h, isNextCall) {
-			if upd[0].Block().Dominates(in.Block()) {
+			if dom(upd[0].Block(), in.Block()) {
 				final = in
 			}
 		}
@@ -84,20 +84,18 @@ func runC16(r *Run) {
 		}
 		// origin / referer
 		var edges []edge
+		isCheck := func(n string) bool {
+			return strings.HasSuffix(n, "csrf.originMatchesHost") || strings.HasSuffix(n, "csrf.refererMatchesHost")
+		}
 		for _, br := range branchesIn(h) {
-			phi, ok := stripValue(br.Info.Root).(*ssa.Phi)
-			if !ok {
+			root := stripValue(br.Info.Root)
+			_, isPhi := root.(*ssa.Phi)
+			_, isCall := root.(*ssa.Call)
+			if !isPhi && !isCall {
 				continue
 			}
-			fromCheck := false
-			for _, e := range phi.Edges {
-				if c, _ := producerCall(e); c != nil {
-					n := calleeName(&c.Call)
-					if strings.HasSuffix(n, "csrf.originMatchesHost") || strings.HasSuffix(n, "csrf.refererMatchesHost") {
-						fromCheck = true
-					}
-				}
-			}
+			// the error under test comes from the origin / referer check, directly or handed on by a helper
+			fromCheck := originatesFromCall(root, isCheck, 0)
 			if fromCheck {
 				if s, ok := br.nilSlot(true); ok {
 					edges = append(edges, edge{br.If.Block(), s})
@@ -370,6 +368,18 @@ func runC16(r *Run) {
 					r.check(ok2, fn+":trustedOrigins-compare-operand", r.pos(in), "operand is "+why, "the value compared with the exact trusted origins is "+why)
 				}
 			}
+			// the same membership test written with slices.Contains / slices.Index
+			for _, c := range callsIn(f, false) {
+				if !strings.HasPrefix(c.Name, "slices.Contains") && !strings.HasPrefix(c.Name, "slices.Index") {
+					continue
+				}
+				if p, ok := stripValue(c.Common.Args[0]).(*ssa.Parameter); !ok || p.Name() != "trustedOrigins" {
+					continue
+				}
+				n++
+				ok2, why := originShaped(c.Common.Args[1])
+				r.check(ok2, fn+":trustedOrigins-compare-operand", r.pos(c.Instr), "operand is "+why, "the value compared with the exact trusted origins is "+why)
+			}
 		}
 		r.atLeast("trusted-origin match sites", n, 4)
 	})
@@ -424,7 +434,7 @@ func runC16(r *Run) {
 					continue
 				}
 				for _, br := range ifsOnValue(h, c.Value()) {
-					if s, ok := br.nilSlot(false); ok && origin != nil && br.If.Block().Succs[s].Dominates(origin) {
+					if s, ok := br.nilSlot(false); ok && origin != nil && dom(br.If.Block().Succs[s], origin) {
 						return
 					}
 				}
@@ -438,7 +448,7 @@ func runC16(r *Run) {
 		for _, br := range branchesIn(h) {
 			if s, ok := constString(br.Info.Const); ok && s == "" && len(kg) == 1 {
 				if _, isPhi := stripValue(br.Info.Root).(*ssa.Phi); isPhi {
-					if sl, ok := br.slotFor(token.EQL); ok && br.If.Block().Succs[sl].Dominates(kg[0].Block()) {
+					if sl, ok := br.slotFor(token.EQL); ok && dom(br.If.Block().Succs[sl], kg[0].Block()) {
 						emptyOK = true
 					}
 				}
